@@ -131,7 +131,9 @@ class Gen:
             self.add_stream(n, self.t(s)); self.ndefer += 1
         elif kind == "switchs" and c and s:
             cs = [self.S() for _ in range(r.randint(2, 4))]
-            n = self.fresh("s"); L.append(f"switchs {n} {c} {' '.join(cs)}"); self.add_stream(n, self.t(*cs))
+            # the selector counts for the loop rule too: a switch whose selector depends on its own output makes
+            # the node graph cyclic (known finding D15)
+            n = self.fresh("s"); L.append(f"switchs {n} {c} {' '.join(cs)}"); self.add_stream(n, self.t(c, *cs))
         elif kind == "switchc" and c:
             cs = [self.C() for _ in range(r.randint(2, 4))]
             n = self.fresh("c"); L.append(f"switchc {n} {c} {' '.join(cs)}"); self.add_cell(n, self.t(c, *cs)); self.swc.add(n)
@@ -282,6 +284,7 @@ class Gen:
                 (self.streams if x in self.streams else self.cells).append(y); self.taint[y] = set(self.taint.get(x, ()))
                 if x in self.swc: self.swc.add(y)
         if r.random() < p["gcs"]: L.append("gc")
+        if r.random() < p.get("memchecks", 0.0): L.append("memcheck")
         if r.random() < p["posts"] * 0.3 and self.cells: L.append(f"post {self.fresh('p')} {self.C()}")
 
     def malformed(self):
